@@ -172,6 +172,9 @@ for (n, tier) in [("open_dev_all_permissive", "thorough")] + [("open_dev_strict_
     harness(n, props=["C16", "C04", "C05"], tier=tier, timeout=7200, mem=16, fs=8192, stubs=[FMT, STUB_UP],
             what="open_internal on the foreign-layout image with deviations planted in the bytes (D1 wrong FAT sector count, D2 wrong MiniFAT sector count, D3 non-zero v3 directory sector count, D5 FAT sector not marked in the FAT, D6 zero-padded FAT, D7 adjacent red nodes, D8 over-long MiniFAT): all at once are accepted by permissive open with the caches, lookups and stream bytes of the undamaged file; each alone is rejected by strict open",
             bounds="one 6-sector v3 image; mini stream contents and metadata symbolic; deviation set concrete per instance", functions=OPEN_F, assumes=[A_SHAPE, A_UPTABLE])
+harness("open_counts_alloc", props=["C05", "C16"], tier="thorough", timeout=7200, mem=16, fs=8192, stubs=[FMT, STUB_UP, "with_capacity"],
+        what="open_internal (permissive) with the header's four count fields (directory / FAT / MiniFAT / DIFAT sectors) ANY u32: accepted, table sizes come from the chains, and no Vec::with_capacity call asks for more elements than a small multiple of the file's size (stub asserts the bound; a capacity is only a hint)",
+        bounds="6-sector v3 image; the four count fields symbolic (all u32)", functions=OPEN_F, assumes=[A_SHAPE, A_UPTABLE, "stub: Vec::with_capacity(n) asserts n <= 4 x file size and returns an empty vector (capacity is a hint; growth on push is real)"])
 for (n, tier) in [("open_uncovered_reuse", "thorough"), ("open_uncovered_grow", "thorough")]:
     harness(n, props=["C11", "C02", "C03", "C15"], tier=tier, timeout=7200, mem=16, fs=8192, stubs=[FMT, STUB_COPY, STUB_UP],
             what="open_internal on a file with MORE sectors (131) than its single FAT sector covers (128): if accepted, the cached FAT is not longer than what the FAT sectors can record, no uncovered sector is on the free list, and allocate_sector afterwards works - reuse of a free sector below the coverage / growth by FAT sector 128 over the unowned trailing sectors, written through",
@@ -420,7 +423,7 @@ QUICK.update({
     "C07": _RM + _INS[:1] + ["alloc_free_chain3", "stor_write_mid", "big_4096_to_100", "big_remove_4096", "big_write_4096_mid", "api_setters"],
     "C08": ["alloc_begin_free13", "alloc_extend_free3", "stor_resize_in_sector", "stor_resize_reuse", "big_grow_100_to_4200", "big_5000_to_5100"],
     "C09": ["c09_cmp_ascii_1_2", "c09_cmp_ascii_2_2", "c09_cmp_sigma_1_2", "c09_cmp_sigma_2_2", "api_invalid_names",
-            "dir_look_n4_s8", "dir_rm_n3_s2_v2", "dirent_maxname_concrete"],
+            "dir_look_n4_s8", "dir_rm_n3_s2_v2"],
     "C10": ["c06_seek_total", "api_invalid_names", "api_ref_new_stream_exists", "api_ref_parent_is_stream",
             "api_ref_remove_stream_on_storage", "api_ref_storage_on_stream", "api_ref_escape_root", "api_ref_clsid_on_stream",
             "cache_c_refused_seeks_change_nothing_min"],
